@@ -12,6 +12,7 @@ import Csverif.Driver.MonC05
 import Csverif.Driver.Codec
 import Csverif.Driver.MonC07
 import Csverif.Driver.MonC12
+import Csverif.Driver.MonC14
 /- Driver: `driver <layer>` reads one operation per line on stdin and prints one canonical
    line per operation.  It executes the very definitions the theorems are about. -/
 open CS
@@ -56,5 +57,6 @@ def main (args : List String) : IO UInt32 := do
   | ["persist"] => loopState stdin stdout Driver.Codec.initPersist Driver.Codec.stepPersist; stdout.flush; return 0
   | ["monc07"] => loopStateless stdin stdout Driver.MonC07.step; stdout.flush; return 0
   | ["monc12"] => loopStateless stdin stdout Driver.MonC12.step; stdout.flush; return 0
+  | ["monc14"] => loopStateless stdin stdout Driver.MonC14.step; stdout.flush; return 0
   | ["reach"] => IO.println (toString Runnable.reachableCodes); return 0
   | _ => IO.eprintln "usage: driver <layer>"; return 2
